@@ -115,7 +115,11 @@ CLAIMS = {
              "the GroupSum is unique and last, spatial layers form a prefix starting with a convolution, Flatten sits exactly between "
              "the spatial part and dense layers / GroupSum, shapes chain and the width divides by the classes (unbounded, by induction "
              "over index lists); foreign modules are rejected; accepted dense stacks are compiled faithfully (C01). Partial: 'foreign "
-             "torch modules' is an open class represented by one kind. Tied by a 43-entry catalogue of containers built for real.",
+             "torch modules' is an open class represented by one kind. One object whose container changes between operations (Model/Handle.v): for "
+             "EVERY sequence of {container := m, get_c_code(), compile(), call} a call returns the model of the last successful compile, under "
+             "the table discipline read from the source; the pre-F67 discipline is refuted. Tied by a catalogue of containers built for real "
+             "(incl. seven ways of changing what a layer computes without overriding forward), container-changed protocols, and random "
+             "operation sequences on one real object against the handle machine evaluated in the kernel.",
         design_ref="DESIGN.md section 6 C14",
         note="Coq kernel (closed theorems); translator translate/parse.py; faithfulness of accepted conv/pool stacks per sampled model (and C02).",
         technique="Rocq/Coq proof on a decision model regenerated by translator + catalogue correspondence (raise vs compile vs outputs)",
